@@ -10,14 +10,18 @@ RULE = ("Hypothesis-generated strongly consistent bases (as C01, boosters for in
         "MaxSAT back-ends (rc2, z3); oracle = preferred structure <_w computed over all worlds. "
         "evaluations = (query, back-end) answers compared. non-trivial = A, A&B, A&notB all "
         "satisfiable; distinct by (atom count, base masks, query masks). Strata: W!=Z answers, "
-        "tie at the top layer, incomparable falsification sets.")
+        "tie at the top layer, incomparable falsification sets. A further source are "
+        "'distinguishing inputs' (vlib/hard.py): queries built from chosen world sets on which the "
+        "recursive System W procedure and one of 15 plausible wrong variants of it (quantifier "
+        "swapped, no minimisation, recursion not restricted to the tie set, cost-ordered "
+        "enumeration without superset removal, ...) disagree - chosen on the reference side only.")
 ASSUMPTIONS = ["CPython, Hypothesis, harness reference semantics (self-checked p<=Z<=W<=lex)",
                "programmatic construction with parser conventions"]
 CFGS = ["w-rc2", "w-z3"]
 
 
 def budget(tier):
-    return {"examples": 2400 if tier == "quick" else 20000,
+    return {"examples": 2400 if tier == "quick" else 20000, "hard_examples": 480 if tier == "quick" else 6000,
             "soft_seconds": 200 if tier == "quick" else 1800}
 
 
@@ -29,6 +33,11 @@ def _search(seed):
 def _search3(seed):
     from .. import search as S
     return S.three_layer_search(seed)
+
+
+def _hard(seed):
+    from .. import hard
+    return hard.any_kind(seed, [k for k in hard.KINDS if k.startswith("w:")])
 
 
 def _layered():
@@ -49,6 +58,11 @@ def strategy(tier):
                      st.integers(0, 2**40).map(_search), st.integers(0, 2**40).map(_search3))
 
 
+def hard_strategy(tier):
+    from hypothesis import strategies as st
+    return st.integers(0, 2**40).map(_hard)
+
+
 def _strata(ctx, M, q, BA, e):
     a, v, f = q
     if a and v and f:
@@ -64,6 +78,8 @@ def _strata(ctx, M, q, BA, e):
 
 
 def run_case(case, ctx):
+    if str(case.get("searched", "")).startswith("w:"):
+        ctx.stratum("search:distinguishing-input")
     if case.get("searched"):
         ctx.stratum(f"search:{case['searched']}")
         ctx.extra["reference_only_candidates"] = ctx.extra.get("reference_only_candidates", 0) + case.get("tried", 0)
@@ -90,4 +106,4 @@ describe = opsem.describe
 
 def required_strata(tier):
     return ["expected=True", "expected=False", "W!=Z", "tie-at-top-layer", "incomparable-sets",
-            "search:superset-before-subset", "search:three-layer-tie", "layers=3"]
+            "search:superset-before-subset", "search:three-layer-tie", "layers=3", "search:distinguishing-input"]
